@@ -358,8 +358,9 @@ fn row_getters(m: &Model, r: i32) -> String {
     )
 }
 
-fn around(t: i32) -> Vec<i32> {
-    (-2..=2i64).map(|d| (t as i64 + d).clamp(i32::MIN as i64, i32::MAX as i64) as i32).collect()
+/// target-2 ..= target+2; `None` where that is not an i32 (printed as `X` on both sides)
+fn around(t: i32) -> Vec<Option<i32>> {
+    (-2..=2i64).map(|d| i32::try_from(t as i64 + d).ok()).collect()
 }
 
 fn sorted_disjoint(cols: &[Col]) -> bool {
@@ -427,9 +428,9 @@ fn eval_seq(req: &str) -> ImplOut {
             any_ok |= ok;
             out = out.tag(&format!("{}:{}", name, if ok { "ok" } else { "err" }));
             let local: Vec<String> = if is_col {
-                around(t).iter().map(|&c| col_getters(&m, c)).collect()
+                around(t).iter().map(|&c| c.map(|c| col_getters(&m, c)).unwrap_or("X".into())).collect()
             } else {
-                around(t).iter().map(|&r| row_getters(&m, r)).collect()
+                around(t).iter().map(|&r| r.map(|r| row_getters(&m, r)).unwrap_or("X".into())).collect()
             };
             blocks.push(format!("{}/{}", if ok { "ok" } else { "err" }, local.join(";")));
             // ── the property oracle: the frame law on the implementation ──
